@@ -66,10 +66,11 @@ func (p *path) String() string {
 	if p.opaque {
 		return p.p[0]
 	} else {
-		output := ""
+		var output strings.Builder
 		for _, pp := range p.p {
-			output += "/" + pp
+			output.WriteByte('/')
+			output.WriteString(pp)
 		}
-		return output
+		return output.String()
 	}
 }
